@@ -243,6 +243,10 @@ def ensure_wrapper(algo):
             R.emitted.append([p.pipeline_id for p in pipelines])
         rd = {"tick": R.tick, "results": list(results), "new": list(pipelines)}
         rd["pre"] = [(pl.avail_cpu_pool, pl.avail_ram_pool) for pl in ex.pools]
+        # what is really free: capacity minus what the live containers hold (the pool's own counters are under test too)
+        rd["pre_true"] = [(pl.max_cpu_pool - sum(c.assignment.cpu for c in list(pl.active_containers) + list(pl.suspending_containers)),
+                           pl.max_ram_pool - sum(c.assignment.ram for c in list(pl.active_containers) + list(pl.suspending_containers)))
+                          for pl in ex.pools]
         # (finished pipelines have no failed and no ready operators: the defaults stand for them)
         rd["pre_failed"] = _Default(int, {p.pipeline_id: p.runtime_status().state_counts[S.FAILED] for _, p in R.open_pipes()})
         rd["pre_ready"] = _Default(set, {p.pipeline_id: set(id(o) for o in ready_ops(p, ("pending", "failed"))) for _, p in R.open})
@@ -454,7 +458,8 @@ def set_uuid_stream(seed):
 # run
 # ---------------------------------------------------------------------------
 def params_of(cfg, algo_key):
-    p = dict(duration=cfg["duration"], ticks_per_second=cfg["tps"], scheduler_algo=algo_key,
+    p = dict(duration=cfg["duration"], ticks_per_second=float(cfg["tps"]) if cfg.get("tps_float") else cfg["tps"],
+             scheduler_algo=algo_key,
              num_pools=cfg["pools"], cpus_per_pool=cfg["cpus"], ram_gb_per_pool=cfg["ram"],
              multi_operator_containers=cfg["multi"], allow_memory_overcommit=cfg["over"])
     for k in ("waiting_seconds_mean", "num_pipelines", "num_operators", "interactive_prob", "query_prob",
